@@ -265,7 +265,7 @@ class RequiredNodes:
     requires = INV + ["0 <= depth"]
     inline = [YP + "escaped", YP + "unescaped"]
     raises = ["YAMLPathException"]
-    opts = dict(SEG_INV, yields="NodeCoords", decreases="len(yaml_path) - depth")
+    opts = dict(SEG_INV, yields="NodeCoords", decreases="len(yaml_path) - depth", event="('required', data, yaml_path)")
 
 
 @contract("yamlpath.common.nodes.Nodes.node_is_aoh", props=["C15"])
@@ -388,7 +388,7 @@ class OptionalNodes:
             "invariant": ["len(data) == n0 + iters"],
         },
     }
-    opts = dict(SEG_INV, yields="NodeCoords", decreases="len(yaml_path) - depth")
+    opts = dict(SEG_INV, yields="NodeCoords", decreases="len(yaml_path) - depth", event="('optional', data, yaml_path)")
 
 
 for _name in ("_has_concrete_child", "_has_anchored_child"):
@@ -423,3 +423,56 @@ class UnwrapNodeCoords:
     raises = []
     opts = {"returns": "Any", "decreases": "nesting depth of the wrapped value (finite: wrappers are built bottom-up)",
             "heap_fields": {"NodeCoords.node": "Any"}}
+
+
+# ---------------------------------------------------------------------------------------------------
+# the public entry points: which driver answers, and that its answer is relayed unchanged (C01)
+# ---------------------------------------------------------------------------------------------------
+PROC_FIELDS = {"self.data": "Any"}
+
+
+def _entry_points(ptype, tag):
+    @contract(PR + "exists", props=["C01", "C15"])
+    class Exists:
+        """exists(path) is True exactly when the REQUIRED-match driver, run on the whole document, yields something;
+        a null document has no paths.  (Two faces: the path given as a YAMLPath object / as text.)"""
+        params = {"yaml_path": ptype, "kw_pathsep": "PathSeparators"}
+        assume_fields = dict(PROC_FIELDS, **PATH_FIELDS)
+        requires = INV if ptype == "YAMLPath" else []        # a YAMLPath object comes with its class invariant
+        raises = ["YAMLPathException"]
+        loops = {"for _ in self._get_required_nodes(self.data, yaml_path)": {"invariant": ["matched_nodes == iters"]}}
+        ensures = [
+            "implies(self.data is None, result is False and called('required') == 0)",
+            "implies(self.data is not None, called('required') == 1 and call_event('required')[1] is self.data)",
+            "implies(self.data is not None, result == (yield_count('required') > 0))",
+        ]
+        opts = dict(SEG_INV, returns="bool")
+    Exists.__name__ = "Exists_" + tag
+
+    @contract(PR + "get_nodes", props=["C01", "C15"])
+    class GetNodes:
+        """get_nodes relays, unchanged and in order, what ONE driver yields on the whole document: the required-match
+        driver when mustexist (raising UnmatchedYAMLPathException exactly when that yielded nothing), else the optional one."""
+        params = {"yaml_path": ptype, "kw_mustexist": "bool", "kw_pathsep": "PathSeparators"}
+        assume_fields = dict(PROC_FIELDS, **PATH_FIELDS)
+        requires = INV if ptype == "YAMLPath" else []
+        raises = ["YAMLPathException"]
+        loops = {
+            "for node_coords in self._get_required_nodes(self.data, yaml_path)": {
+                "invariant": ["matched_nodes == iters"],
+                "body_ensures": ["len(yielded) == 1 and yielded[0] is node_coords"]},
+            "for opt_node in self._get_optional_nodes(self.data, yaml_path, default_value)": {
+                "body_ensures": ["len(yielded) == 1 and yielded[0] is opt_node"]},
+        }
+        ensures = [
+            "implies(self.data is not None and kw_mustexist, called('required') == 1 and called('optional') == 0 "
+            "and call_event('required')[1] is self.data and yield_count('required') >= 1)",
+            "implies(self.data is not None and not kw_mustexist, called('optional') == 1 and called('required') == 0 "
+            "and call_event('optional')[1] is self.data)",
+        ]
+        opts = dict(SEG_INV, yields="NodeCoords")
+    GetNodes.__name__ = "GetNodes_" + tag
+
+
+_entry_points("YAMLPath", "path")
+_entry_points("str", "text")
